@@ -7,7 +7,7 @@ from typing import Self
 import numpy as np
 from pydantic import ConfigDict, model_validator
 
-from ropt.config.utils import ImmutableBaseModel, normalize
+from ropt.config.utils import ImmutableBaseModel, broadcast_1d_array, normalize
 from ropt.config.validated_types import (  # noqa: TC001
     Array1D,
     Array1DInt,
@@ -55,5 +55,10 @@ class ObjectiveFunctionsConfig(ImmutableBaseModel):
             return self
         self._mutable()
         self.weights = normalize(self.weights)
+        for name in ("realization_filters", "function_estimators"):
+            if (indices := getattr(self, name)) is not None:
+                setattr(
+                    self, name, broadcast_1d_array(indices, name, self.weights.size)
+                )
         self._immutable()
         return self
